@@ -375,6 +375,6 @@ def register(reg, prog):
             g.append(('no-registration-survives-a-request-nobody-waits-for', ev('(request.token, request.remote) not in self.incoming_requests')))
         return g
 
-    reg.contract(TM + '.process_request', params={'request': MSG}, properties=P + ['C18'],
+    reg.contract(TM + '.process_request', params={'request': MSG}, properties=P + ['C18', 'C09'],   # C09: one final response per request: a superseded handler is stopped
                  requires=['tm_wf(self)', 'request.remote is not None'], only_raises=True, at_exit=preq_exit,
                  modifies=['dict:self.incoming_requests'])
